@@ -117,7 +117,11 @@ func (g *hg) key() string {
 }
 
 func (g *hg) literal() Op {
-	switch g.pick("lit", 8) {
+	switch g.pick("lit", 10) {
+	case 8: // an exhausted tail: empty, but still a view of its parent's backing array
+		return Op{Expr: "(rest (rest (rest [1 2 3])))", Kind: "list"}
+	case 9:
+		return Op{Expr: "(rest (rest (rest (rest (rest (quote (1 2 3 4 5)))))))", Kind: "list"}
 	case 0:
 		return Op{Expr: "[" + g.items("litn", 0, 4) + "]", Kind: "vec"}
 	case 1:
@@ -196,7 +200,13 @@ func (g *hg) step() Op {
 			}
 		case c == 15:
 			if p, ok := g.parent(seqKinds...); ok {
-				return Op{Expr: "(rest " + p + ")", Kind: "list", Parent: p, View: true}
+				// walk k steps towards (often to) the end: empty tails still share the backing array
+				k := 1 + g.pick("nrest", 4)
+				e := p
+				for i := 0; i < k; i++ {
+					e = "(rest " + e + ")"
+				}
+				return Op{Expr: e, Kind: "list", Parent: p, View: true}
 			}
 		case c == 16:
 			if p, ok := g.parent(seqKinds...); ok {
@@ -244,11 +254,19 @@ func (g *hg) step() Op {
 				if g.pick("apl", 2) == 0 {
 					return Op{Expr: "(apply list " + g.item() + " " + p + ")", Kind: "list", Parent: p}
 				}
-				return Op{Expr: "(apply (fn (& xs) xs) " + p + ")", Kind: "list", Parent: p, View: true}
+				return Op{Expr: "(apply (fn (& xs) (trace! xs)) " + p + ")", Kind: "list", Parent: p, View: true}
 			}
 		case c == 25:
 			if p, ok := g.parent(seqKinds...); ok {
-				return Op{Expr: "(map (fn (x) x) " + p + ")", Kind: "list", Parent: p}
+				switch g.pick("mapk", 4) {
+				case 0:
+					return Op{Expr: "(map (fn (x) x) " + p + ")", Kind: "list", Parent: p}
+				case 1: // rest parameters that outlive the call; trace! keeps a reference and a snapshot of each
+					return Op{Expr: "(map (fn (& xs) (trace! xs)) " + p + ")", Kind: "list", Parent: p}
+				case 2:
+					return Op{Expr: "(map (fn (x & more) (trace! (list x more))) " + p + ")", Kind: "list", Parent: p}
+				}
+				return Op{Expr: "(first (map (fn (& xs) (fn () xs)) " + p + "))", Kind: "closure", Call: true}
 			}
 		case c <= 28: // quasiquote splices: first / middle / last position, list and vector templates, inline and via macro
 			if p, ok := g.parent(seqKinds...); ok {
@@ -292,6 +310,9 @@ func (g *hg) step() Op {
 		case c == 31: // reduce with conj: many extensions in a row
 			if p, ok := g.parent(seqKinds...); ok {
 				if q, ok := g.parent(seqKinds...); ok {
+					if g.pick("redk", 2) == 0 {
+						return Op{Expr: "(reduce (fn (a x) (trace! (conj a x))) " + p + " " + q + ")", Kind: g.kindOf(p), Parent: p, Extends: true}
+					}
 					return Op{Expr: "(reduce conj " + p + " " + q + ")", Kind: g.kindOf(p), Parent: p, Extends: true}
 				}
 			}
@@ -348,6 +369,7 @@ func opName(expr string) string {
 func check(c Case) pbt.Verdict {
 	box.Silence()
 	e := box.FullEnv()
+	tr := box.AddTrace(e)
 	ctx, cancel := context.WithTimeout(context.Background(), 20*time.Second)
 	defer cancel()
 	if r := box.ReadEval(ctx, prelude, e); r.Err != nil || r.Panicked {
@@ -401,6 +423,19 @@ func check(c Case) pbt.Verdict {
 			if o.View {
 				views[o.Name] = true
 			}
+		}
+		// invariant: every intermediate value a callback saw (trace! keeps the reference and a
+		// snapshot taken at that moment) is still what it was
+		tr.Each(func(j int, snapshot val.V, raw types.MalType) bool {
+			if now := val.From(raw); !val.Eq(now, snapshot) {
+				v = pbt.Failf("intermediate-mutated-by:"+opName(o.Expr), "after step %d  (def %s %s)  a value seen by a callback as %s is now %s\nhistory:\n%s",
+					i, o.Name, o.Expr, val.Canon(snapshot), val.Canon(now), c.Text())
+				return false
+			}
+			return true
+		})
+		if v.Fail {
+			return v
 		}
 		// invariant: every value ever bound still equals its snapshot
 		for _, s := range snaps {
